@@ -166,7 +166,7 @@ def s_feeflow(F, res):
         fee_op = rv["ops"][rv["fields"].index("fee")]
         pay_op = rv["ops"][rv["fields"].index("payload")]
         fo = mir.provenance(c, du2, fee_op)
-        esf = [x for x in fo if x.kind == "call" and x.callee == "tx3_cardano::ops::eval_size_fees"]
+        esf = [x for x in fo if x.kind == "call" and x.callee == fee_function(F)]
         if not esf:
             good2 = False
             continue
@@ -198,8 +198,85 @@ def s_feeflow(F, res):
         res.add([finding("S-FEEFLOW", key3, where(b), "the body's fee field does not come from tx.fees")])
 
 
+_FEEFN = {}
+
+
+def fee_function(F):
+    """the function whose result Compiler::compile reports as the fee: found by role (a tx3_cardano function called in
+    compile - helpers inlined - whose result reaches CompiledTx.fee), whatever it is called"""
+    if id(F) in _FEEFN:
+        return _FEEFN[id(F)]
+    c = _compile_body(F)
+    du = mir.DefUse(c)
+    cands = []
+    for bi, si, st in mir.stmts(c):
+        rv = st["rv"]
+        if rv["k"] == "agg" and rv.get("adt") == "tx3_tir::compile::CompiledTx" and "fee" in rv.get("fields", []):
+            for o in mir.provenance(c, du, rv["ops"][rv["fields"].index("fee")]):
+                if o.kind == "call" and o.callee in F.fns and F.fns[o.callee]["crate"] == "tx3_cardano":
+                    cands.append(o.callee)
+    if len(set(cands)) != 1:
+        raise BrokenCheck("the reported fee is not the result of exactly one tx3_cardano function (found %r)" % sorted(set(cands)))
+    _FEEFN[id(F)] = cands[0]
+    return cands[0]
+
+
+def formula(F, res):
+    """FORMULA: the fee function returns  len(payload) * min_fee_coefficient + min_fee_constant + margin,  margin = the
+    configured extra fee or, when none is configured, the crate's default margin (a non-zero constant).  Decided on the
+    canonical symbolic form of the returned value (sums / products flattened and sorted, casts and overflow checks
+    transparent): association, operand order, temporaries and helper extraction do not matter; a changed operator, a dropped or
+    extra term, another field or another default do."""
+    from .. import symexpr
+    from ..common import with_helpers
+    p = fee_function(F)
+    f0 = F.fns[p]
+    f = with_helpers(F, p)
+    du = mir.DefUse(f)
+    e = symexpr.expr_of(F, f, du, {"l": 0, "p": []})
+    key = "%s|fee = a*len + b + margin" % p
+    w = where(f0)
+    default = None
+    c = F.ctfe.get("tx3_cardano::DEFAULT_EXTRA_FEES")
+    if c is not None:
+        for bi, si, st in mir.stmts(c):
+            cc = mir.op_const(st["rv"].get("op")) if st["rv"]["k"] == "use" else None
+            if cc is not None and "int" in cc:
+                default = cc["int"]
+    problems = []
+    if not (isinstance(e, tuple) and e[0] == "+"):
+        if isinstance(e, tuple) and e[0] == "?":
+            res.add([assumption("FORMULA", key, w, "the fee expression is outside the recognised fragment (%s): not decided" % e[1])])
+            return
+        problems.append("the fee is not a sum: %s" % symexpr.show(e))
+    else:
+        terms = list(e[1])
+        size_term = [t for t in terms if t[0] == "*" and len(t[1]) == 2 and any(x[0] == "len" for x in t[1])
+                     and any(x[0] == "arg" and x[2][-1:] == ("min_fee_coefficient",) for x in t[1])]
+        const_term = [t for t in terms if t[0] == "arg" and t[2][-1:] == ("min_fee_constant",)]
+        margin = [t for t in terms if t[0] == "unwrap_or" and t[1][0] == "arg" and "Option<u64>" in t[1][1] or
+                  (t[0] == "arg" and t[2][-1:] == ("extra_fees",))]
+        rest = [t for t in terms if t not in size_term + const_term + margin]
+        if len(size_term) != 1:
+            problems.append("no single term `len(payload) * min_fee_coefficient`")
+        if len(const_term) != 1:
+            problems.append("no single term `min_fee_constant`")
+        if len(margin) != 1:
+            problems.append("no single margin term")
+        elif margin[0][0] == "unwrap_or":
+            dv = margin[0][2]
+            if dv[0] != "c" or dv[1] == 0 or (default is not None and dv[1] != default):
+                problems.append("when no margin is configured the fee function adds %s instead of the default margin%s" % (symexpr.show(dv), " %d" % default if default is not None else ""))
+        if rest:
+            problems.append("extra terms: %s" % ", ".join(symexpr.show(t) for t in rest))
+    if problems:
+        res.add([finding("FORMULA", key, w, "the fee function computes %s - %s" % (symexpr.show(e), "; ".join(problems)))])
+    else:
+        res.add([ok("FORMULA", key, w, "canonical form: %s" % symexpr.show(e))])
+
+
 def f_fielduse(F, res):
-    f = F.fn("tx3_cardano::ops::eval_size_fees")
+    f = F.fn(fee_function(F))
     read = set()
     for bi, si, s in mir.stmts(f):
         rv = s["rv"]
@@ -222,7 +299,7 @@ def f_fielduse(F, res):
     du = mir.DefUse(c)
     passes = False
     for bi, t in mir.calls(c):
-        if (t.get("callee") or "") == "tx3_cardano::ops::eval_size_fees" and len(t["args"]) > 2:
+        if (t.get("callee") or "") == fee_function(F) and len(t["args"]) > 2:
             o = mir.provenance(c, du, t["args"][2])
             if any(x.kind == "arg" and ".extra_fees" in x.proj for x in o):
                 passes = True
@@ -239,10 +316,12 @@ def run(ctx):
     res.rule("S-CONVERGE", "resolve_tx returns Ok only on the convergence edge; eval_pass reports convergence only after comparing with the previous evaluation")
     res.rule("S-FEEFLOW", "applied fee = previous reported fee; reported fee = eval_size_fees(returned payload); body fee = tx.fees")
     res.rule("F-FIELDUSE", "the fee formula consults coefficient, constant and margin")
+    res.rule("FORMULA", "the fee function's value is len * coefficient + constant + margin (configured, else the default), as a canonical symbolic form")
     res.rule("S-KIND", "fees are substituted only by Param::apply_fees under ExpectFees")
     s_converge(F, res)
     s_feeflow(F, res)
     f_fielduse(F, res)
+    formula(F, res)
     c06.s_kind(F, res)
     res.obs = [o for o in res.obs if o.rule != "S-SETCONST"]
     return res
